@@ -1,17 +1,21 @@
 (* C30 — A healthy cluster elects a leader and replicates appended entries.
-   Pinned statements only; proofs in theories/RaftLive.v; model theories/Raft.v.
+   Pinned statements only; proofs in theories/RaftLive.v, RaftLiveInd.v, RaftLiveInd3.v, RaftLiveInd5.v, RaftLiveAll.v, RaftLiveAll3.v; model theories/Raft.v.
 
    FULL STATEMENT: when all messages are delivered and timers fire as configured, a cluster (any size, any
    fault-free interleaving, any number of appended entries) elects exactly one leader, and every entry appended
    at the leader is eventually present and committed on every node.
    `rv : raftrev` is the revision of the election code (Raft.v: before / after each of the two election repairs of
    C27); every statement below holds for every revision, so in particular for the one the source tree has.
-   PROVED (partial — the cluster size, the schedule and the number of appended entries are bounded as written
-   in each statement; nothing is claimed for other sizes or for arbitrarily many appends):
-   * 3 nodes, EVERY fault-free interleaving of the schedule `script3`;
-   * 3 and 5 nodes, oldest-first delivery. *)
+   PROVED (partial with respect to the full statement — cluster sizes and schedules are restricted as written in
+   each statement; nothing is claimed for other sizes):
+   * 3 nodes, EVERY fault-free interleaving of the schedule `script3` (two appends);
+   * 3 and 5 nodes, oldest-first delivery, two appends;
+   * 3 and 5 nodes, oldest-first (FIFO) delivery, ANY number of appended entries with any payloads
+     (`C30_fifo_unbounded_3_partial` / `_5_partial`, induction over the payload list; second half of this file);
+   * 3 nodes, EVERY per-channel-FIFO interleaving (messages of one pair of nodes in order, different pairs race),
+     ANY number of appended entries (`C30_channel_fifo_unbounded_3_partial`; last part of this file). *)
 From Coq Require Import NArith List.
-From Agdb Require Import Raft RaftProofs RaftLive.
+From Agdb Require Import Raft RaftProofs RaftLive RaftLiveInd RaftLiveInd3 RaftLiveInd5 RaftLiveAll RaftLiveAll3.
 Import ListNotations.
 Open Scope N_scope.
 
@@ -47,3 +51,144 @@ Theorem C30_fifo_5_partial : forall rv,
   c_net c = [] /\ all_synced_b c [101; 102] = true /\ election_safety_b (c_hist c) = true.
 Proof. exact C30_fifo_5. Qed.
 Print Assumptions C30_fifo_5_partial.
+
+(* ================================================================== any number of appended entries (FIFO schedule)
+
+   `fifo_drain rv c c'`: the OLDEST message in flight is delivered (`Deliver 0 0`: no timer has expired at the
+   receiver) again and again until the network is empty — a relation, no fuel, no bound; it is deterministic.
+   `fifo_run rv actions c c'`: the scripted actions happen one after the other, each followed by `fifo_drain`.
+   `live_actions size payloads` = node 0's election timer fires (configured first election timeout 0 ms); then one
+   `ClientAppend 0 d` per payload d; then one heartbeat round (`Tick 0 1001 peers`: all heartbeat timers of node 0 due).
+   This is the order in which the real server delivers (one queue per peer, the sender awaits each answer).
+
+   For EVERY revision of the election code, EVERY list of payloads (any length) and the state c' in which that run
+   ends: nothing is in flight, node 0 is the only leader and every other node its follower, every node is in term 1,
+   every node's log is exactly the payloads in order (entry i has index i and term 1) and every node's commit index
+   is the number of payloads; hence the goal predicate of the bounded statements above holds too.
+   Proof: induction over the payloads with the steady state `ss_gen size k pt L` (all logs = L with k entries, all
+   commit indices = k, the leader's table holds (k, pt, k) for every node); one append round from the steady state
+   with a symbolic k / L / payload is evaluated symbolically (8 deliveries for 3 nodes, 16 for 5): the leader commits
+   on the acknowledgement that completes the quorum and the heartbeats it then sends carry the new commit index to
+   the followers within the same round.
+   NOT covered (hence `_partial` with respect to the full statement): other cluster sizes (the round lemmas are
+   proved per size, not for a symbolic size), other schedules for more than two appends, appends issued while
+   messages are still in flight. *)
+Theorem C30_fifo_unbounded_3_partial : forall rv payloads c',
+  fifo_run rv (live_actions 3 payloads) (init_default 3) c' ->
+  c_net c' = [] /\
+  map n_state (c_nodes c') = [Leader; Follower 0; Follower 0] /\
+  Forall (fun nd => n_term nd = 1 /\ n_logs nd = mk_log 1 0 payloads /\ n_commit nd = lenN payloads) (c_nodes c') /\
+  all_synced_b c' payloads = true.
+Proof. exact C30_fifo_unbounded_3_proof. Qed.
+Print Assumptions C30_fifo_unbounded_3_partial.
+
+Theorem C30_fifo_unbounded_5_partial : forall rv payloads c',
+  fifo_run rv (live_actions 5 payloads) (init_default 5) c' ->
+  c_net c' = [] /\
+  map n_state (c_nodes c') = [Leader; Follower 0; Follower 0; Follower 0; Follower 0] /\
+  Forall (fun nd => n_term nd = 1 /\ n_logs nd = mk_log 1 0 payloads /\ n_commit nd = lenN payloads) (c_nodes c') /\
+  all_synced_b c' payloads = true.
+Proof. exact C30_fifo_unbounded_5_proof. Qed.
+Print Assumptions C30_fifo_unbounded_5_partial.
+
+(* such a run exists for every payload list, and it is the run of ONE event list of the model:
+   `live_script fe fa fh size payloads` = Tick 0 0 [], fe deliveries of the oldest message, then per payload
+   ClientAppend 0 d and fa deliveries, then the heartbeat Tick and fh deliveries (12/8/4 for 3 nodes, 24/16/8 for 5) *)
+Theorem C30_fifo_unbounded_3_run : forall rv payloads,
+  fifo_run rv (live_actions 3 payloads) (init_default 3) (run rv 3 (live_script 12 8 4 3 payloads)).
+Proof. exact live_fifo_script_3. Qed.
+Print Assumptions C30_fifo_unbounded_3_run.
+
+Theorem C30_fifo_unbounded_5_run : forall rv payloads,
+  fifo_run rv (live_actions 5 payloads) (init_default 5) (run rv 5 (live_script 24 16 8 5 payloads)).
+Proof. exact live_fifo_script_5. Qed.
+Print Assumptions C30_fifo_unbounded_5_run.
+
+(* the FIFO runs are among the fault-free runs `ff_run` of the first half of this file *)
+Theorem C30_fifo_is_fault_free : forall rv actions c c', fifo_run rv actions c c' -> ff_run rv actions c c'.
+Proof. exact fifo_run_ff. Qed.
+Print Assumptions C30_fifo_is_fault_free.
+
+(* with the repaired election code (the code in /repo) at most one leader per term at every moment of these runs
+   (the full C27 theorem applied to the event list of the run) *)
+Theorem C30_fifo_election_safety : forall size actions c',
+  fifo_run rr_fixed actions (init_default size) c' -> election_safety (c_hist c').
+Proof. exact fifo_run_election_safety. Qed.
+Print Assumptions C30_fifo_election_safety.
+
+(* non-vacuity: for three payloads the run exists, and evaluating its event list gives what the theorem says *)
+Example C30_fifo_unbounded_3_example :
+  let c := run rr_fixed 3 (live_script 12 8 4 3 [7; 8; 9]) in
+  fifo_run rr_fixed (live_actions 3 [7; 8; 9]) (init_default 3) c /\
+  c_net c = [] /\
+  map n_state (c_nodes c) = [Leader; Follower 0; Follower 0] /\
+  map n_logs (c_nodes c) = repeat [mkEntry 1 1 7; mkEntry 2 1 8; mkEntry 3 1 9] 3 /\
+  map n_commit (c_nodes c) = [3; 3; 3] /\
+  all_synced_b c [7; 8; 9] = true.
+Proof. split; [exact (live_fifo_script_3 rr_fixed [7; 8; 9]) | vm_compute; repeat split; reflexivity]. Qed.
+Print Assumptions C30_fifo_unbounded_3_example.
+
+Example C30_fifo_unbounded_5_example :
+  let c := run rr_fixed 5 (live_script 24 16 8 5 [7; 8; 9]) in
+  fifo_run rr_fixed (live_actions 5 [7; 8; 9]) (init_default 5) c /\
+  c_net c = [] /\
+  map n_state (c_nodes c) = [Leader; Follower 0; Follower 0; Follower 0; Follower 0] /\
+  map n_logs (c_nodes c) = repeat [mkEntry 1 1 7; mkEntry 2 1 8; mkEntry 3 1 9] 5 /\
+  map n_commit (c_nodes c) = [3; 3; 3; 3; 3] /\
+  all_synced_b c [7; 8; 9] = true.
+Proof. split; [exact (live_fifo_script_5 rr_fixed [7; 8; 9]) | vm_compute; repeat split; reflexivity]. Qed.
+Print Assumptions C30_fifo_unbounded_5_example.
+
+(* ================================================================== any number of appended entries, every
+   per-channel-FIFO interleaving (3 nodes)
+
+   `pf_run rv c c'` (RaftLiveAll.v): again and again ANY in-flight message is delivered that has no older in-flight
+   message of the same channel in front of it (channel = the pair (sender, receiver) of the request; a response
+   belongs to the channel of the request it answers), until the network is empty; nothing is lost or duplicated;
+   `Deliver k 0`: no timer has expired at the receiver.  This is what the server's transport gives: one ordered
+   connection per peer, deliveries to different peers race.  `pff_run rv actions c c'`: the scripted actions one after
+   the other, each followed by `pf_run`.
+   For EVERY revision of the election code, EVERY payload list (any length) and EVERY such run of a 3-node cluster:
+   the same conclusion as `C30_fifo_unbounded_3_partial`.
+   Proof: induction over the payloads; the steady state is generalised over the fields no handler reads (they are
+   where the interleavings differ); the election round is covered by the reflective exploration of ALL interleavings
+   on the concrete initial state, the heartbeat round by a symbolic exploration of ALL interleavings, an append round
+   (symbolic k, log, payload) by a symbolic exploration of all per-channel-FIFO interleavings (tactic `explore_p`: a
+   depth-first walk of the graph of symbolic states with the states already proved kept as hypotheses).
+   NOT covered (hence `_partial`): 5 and more nodes; interleavings in which a message overtakes an older one of its
+   own channel during an APPEND round (for two appends they are covered by C30_all_interleavings_3_partial; for a
+   symbolic round the same exploration proves it — 214 symbolic states, about 5 minutes — and was left out to keep
+   every file under 2 minutes); appends issued while messages are in flight. *)
+Theorem C30_channel_fifo_unbounded_3_partial : forall rv payloads c',
+  pff_run rv (live_actions 3 payloads) (init_default 3) c' ->
+  c_net c' = [] /\
+  map n_state (c_nodes c') = [Leader; Follower 0; Follower 0] /\
+  Forall (fun nd => n_term nd = 1 /\ n_logs nd = mk_log 1 0 payloads /\ n_commit nd = lenN payloads) (c_nodes c') /\
+  all_synced_b c' payloads = true.
+Proof. exact C30_pf_unbounded_3_proof. Qed.
+Print Assumptions C30_channel_fifo_unbounded_3_partial.
+
+(* the relations are nested: oldest-first ⊆ per-channel FIFO ⊆ any order *)
+Theorem C30_schedules_nested : forall rv c c',
+  (fifo_drain rv c c' -> pf_run rv c c') /\ (pf_run rv c c' -> dl_run rv c c').
+Proof. intros rv c c'. split; [apply fifo_drain_pf | apply pf_run_dl]. Qed.
+Print Assumptions C30_schedules_nested.
+
+(* non-vacuity: for every payload list the oldest-first run is one of these runs; and a run that is NOT oldest-first
+   (the second follower's append is delivered and acknowledged before the first follower's) is another one, for which
+   evaluation gives what the theorem says *)
+Example C30_channel_fifo_inhabited : forall rv payloads,
+  pff_run rv (live_actions 3 payloads) (init_default 3) (run rv 3 (live_script 12 8 4 3 payloads)).
+Proof. exact live_pf_3_inhabited. Qed.
+Print Assumptions C30_channel_fifo_inhabited.
+
+Example C30_channel_fifo_example :
+  let c0 := step rr_fixed (run rr_fixed 3 (Tick 0 0 [] :: repeat (Deliver 0 0) 12)) (ClientAppend 0 7) in
+  let c2 := run_from rr_fixed c0 (map (fun k => Deliver k 0) [1; 1; 0; 0; 1; 0; 1; 0]%nat) in
+  pf_run rr_fixed c0 c2 /\
+  c_net c2 = [] /\ map n_logs (c_nodes c2) = repeat [mkEntry 1 1 7] 3 /\ map n_commit (c_nodes c2) = [1; 1; 1].
+Proof.
+  intros c0 c2. split; [|vm_compute; repeat split; reflexivity].
+  subst c2. apply pf_check_sound. vm_compute. reflexivity.
+Qed.
+Print Assumptions C30_channel_fifo_example.
